@@ -471,13 +471,56 @@ def _mkseq(kind, s):
     return ProteinSequence(s) if kind == "prot" else NucleotideSequence(s, ambiguous=(kind == "nuc_amb"))
 
 
-def fasta_seq(cpl, as_rna, picks, edits):
+# headers: the format keeps everything after the leading '>' up to the line end; surrounding white space and line breaks
+# are not part of a header (the writer removes them), so the model holds the normalised header
+HDR_MENU = ["h{k} d", ">h{k}", "h{k}>x;y", " h{k} ", "h{k}\tz", ">>{k}", "h{k}\nw"]
+
+
+def _norm_header(h):
+    return h.replace("\n", "").strip()
+
+
+def fasta_seq(cpl, as_rna, picks, edits, hdr=0):
     """write sequences picks (indices in SEQ_MENU) under headers h0.., apply edits, compare in-memory view,
     text re-read and read_iter with the dict model"""
     from biotite.sequence.io import fasta
     from biotite.sequence import ProteinSequence
     f = fasta.FastaFile(chars_per_line=cpl)
     model = {}
+    raw = {k: HDR_MENU[hdr if k == 0 else 0].format(k=k) for k in range(2)}
+    if hdr:
+        # through the mapping interface with the raw header; the parsed view answers under the normalised header
+        for k, p in enumerate(picks):
+            f[raw[k]] = str(_mkseq(*SEQ_MENU[p])).replace("T", "U") if as_rna and SEQ_MENU[p][0] != "prot" else str(_mkseq(*SEQ_MENU[p]))
+            model[_norm_header(raw[k])] = _mkseq(*SEQ_MENU[p])
+        if list(f.keys()) != list(model.keys()):
+            return False
+        o = io.StringIO()
+        f.write(o)
+        g = fasta.FastaFile.read(io.StringIO(o.getvalue()))
+        if list(g.keys()) != list(model.keys()):
+            return False
+        if [h for h, _ in fasta.FastaFile.read_iter(io.StringIO(o.getvalue()))] != list(model.keys()):
+            return False
+        for e in edits:
+            h = _norm_header(raw[e[1]])
+            if e[0] == "del":
+                del f[h]
+                del model[h]
+            else:
+                s = _mkseq(*SEQ_MENU[e[2]])
+                fasta.set_sequence(f, s, header=raw[e[1]], as_rna=as_rna)
+                del model[h]
+                model[h] = s
+        if list(f.keys()) != list(model.keys()):
+            return False
+        o = io.StringIO()
+        f.write(o)
+        g = fasta.FastaFile.read(io.StringIO(o.getvalue()))
+        if list(g.keys()) != list(model.keys()):
+            return False
+        got = fasta.get_sequences(g)
+        return all(str(got[h]) == str(sq) for h, sq in model.items())
     seqs = {f"h{k} d": _mkseq(*SEQ_MENU[p]) for k, p in enumerate(picks)}
     fasta.set_sequences(f, seqs, as_rna=as_rna)
     model.update(seqs)
@@ -527,7 +570,7 @@ def fasta_seq(cpl, as_rna, picks, edits):
 
 def fasta_replay(w):
     try:
-        ok = fasta_seq(w["cpl"], w["as_rna"], w["picks"], [tuple(e) for e in w["edits"]])
+        ok = fasta_seq(w["cpl"], w["as_rna"], w["picks"], [tuple(e) for e in w["edits"]], w.get("hdr", 0))
         return ok, f"returned {ok}"
     except Exception as e:
         return False, f"{type(e).__name__}: {e}"
@@ -537,21 +580,23 @@ def ob_fasta(tier):
     cases = []
     for cpl in (1, 3, 80):
         for as_rna in (False, True):
-            p0, p1, e0, e1, e2 = z3.Ints("p0 p1 e0 e1 e2")
+            p0, p1, e0, e1, e2, hd = z3.Ints("p0 p1 e0 e1 e2 hd")
             base = [p0 >= 0, p0 < len(SEQ_MENU), p1 >= 0, p1 < len(SEQ_MENU), e0 >= 0, e0 <= 2, e1 >= 0, e1 <= 1,
-                    e2 >= 0, e2 < len(SEQ_MENU), z3.Implies(e0 != 2, e2 == 0), z3.Implies(e0 == 0, e1 == 0)]
+                    e2 >= 0, e2 < len(SEQ_MENU), z3.Implies(e0 != 2, e2 == 0), z3.Implies(e0 == 0, e1 == 0),
+                    hd >= 0, hd < len(HDR_MENU)]
 
-            def run(cpl=cpl, as_rna=as_rna, p0=p0, p1=p1, e0=e0, e1=e1, e2=e2):
+            def run(cpl=cpl, as_rna=as_rna, p0=p0, p1=p1, e0=e0, e1=e1, e2=e2, hd=hd):
                 ex = cur()
+                h = ex.choose(hd, range(len(HDR_MENU)))
                 a = ex.choose(p0, range(len(SEQ_MENU)))
                 b = ex.choose(p1, range(len(SEQ_MENU)))
                 k = ex.choose(e0, range(3))
                 i = ex.choose(e1, range(2))
                 j = ex.choose(e2, range(len(SEQ_MENU)))
                 edits = [] if k == 0 else [("del", i)] if k == 1 else [("set", i, j)]
-                return fasta_seq(cpl, as_rna, [a, b], edits)
+                return fasta_seq(cpl, as_rna, [a, b], edits, h)
             cases.append(Case(f"fasta cpl={cpl} as_rna={as_rna}", base, run,
-                              dict(cpl=cpl, as_rna=as_rna, picks=[p0, p1], edits=[]), _fasta_replay_sym))
+                              dict(cpl=cpl, as_rna=as_rna, picks=[p0, p1], edits=[], hdr=hd), _fasta_replay_sym))
     return cases, dict(functions_hash=_hash("biotite.sequence.io.fasta.file", "biotite.sequence.io.fasta.convert"))
 
 
@@ -561,7 +606,7 @@ def _fasta_replay_sym(w):
         for i in range(2):
             for j in (range(len(SEQ_MENU)) if k == 2 else [0]):
                 edits = [] if k == 0 else [("del", i)] if k == 1 else [("set", i, j)]
-                ok, obs = fasta_replay(dict(cpl=w["cpl"], as_rna=w["as_rna"], picks=w["picks"], edits=edits))
+                ok, obs = fasta_replay(dict(cpl=w["cpl"], as_rna=w["as_rna"], picks=w["picks"], edits=edits, hdr=w.get("hdr", 0)))
                 if not ok:
                     return False, f"edits={edits}: {obs}"
     return True, "all edit variants ok"
